@@ -10,41 +10,41 @@ import (
 type GraphAttack int
 
 const (
-	KidsSelf            GraphAttack = iota // a /Pages node lists itself in /Kids
-	KidsAncestor                           // a /Pages node lists the page tree root in /Kids
-	KidsDuplicatePage                      // the same page object twice in /Kids
-	KidsNotDict                            // /Kids contains a reference to a non-dictionary
-	ParentSelf                             // a page's /Parent is the page itself
-	ParentCycle                            // the root /Pages node gets a /Parent pointing to a descendant
-	PagesCountLie                          // /Count of the root is absurd
-	OutlineNextSelf                        // item /Next = item
-	OutlineNextCycle                       // last sibling /Next = first sibling
-	OutlinePrevCycle                       // first sibling /Prev = last sibling
-	OutlineFirstSelf                       // item /First = item
-	OutlineFirstParent                     // item /First = its parent (or the outline root)
-	OutlineParentSelf                      // item /Parent = item
-	OutlineRootFirstRoot                   // outline root /First = outline root
-	OutlineCountLie                        // /Count absurd
-	NameTreeKidsSelf                       // name tree node lists itself in /Kids
-	NameTreeKidsRoot                       // a name tree leaf gets /Kids [root]
-	NameTreeLimitsLie                      // /Limits do not match
-	FieldKidsCycle                         // AcroForm field /Kids contains the field itself
-	FieldParentCycle                       // field /Parent = field
-	FormXObjectSelf                        // form XObject's resources refer to the form itself and its content paints it
-	ResourcesSelf                          // /Resources entry refers to the page object
-	DeepArrayInCatalog                     // catalog key holding an array nested depth levels
-	DeepDictInCatalog                      // same with dictionaries
-	DeepArrayInContent                     // a content stream with a deeply nested array operand
-	FilterGarbage                          // /Filter with unknown names / wrong types
-	DecodeParmsGarbage                     // /DecodeParms of wrong type / absurd values
-	ContentsGarbage                        // page /Contents refers to non-streams
-	RootNotCatalog                         // trailer /Root refers to a page
-	InfoSelf                               // trailer /Info refers to the catalog
-	BombContent                            // a page content stream is a decompression bomb
-	BombImage                              // image XObject with huge declared size
-	BombPredictor                          // stream with huge predictor /Columns
-	AnnotsCycle                            // /Annots array refers to itself / the page
-	DestCycle                              // named destination referring to itself through /D
+	KidsSelf             GraphAttack = iota // a /Pages node lists itself in /Kids
+	KidsAncestor                            // a /Pages node lists the page tree root in /Kids
+	KidsDuplicatePage                       // the same page object twice in /Kids
+	KidsNotDict                             // /Kids contains a reference to a non-dictionary
+	ParentSelf                              // a page's /Parent is the page itself
+	ParentCycle                             // the root /Pages node gets a /Parent pointing to a descendant
+	PagesCountLie                           // /Count of the root is absurd
+	OutlineNextSelf                         // item /Next = item
+	OutlineNextCycle                        // last sibling /Next = first sibling
+	OutlinePrevCycle                        // first sibling /Prev = last sibling
+	OutlineFirstSelf                        // item /First = item
+	OutlineFirstParent                      // item /First = its parent (or the outline root)
+	OutlineParentSelf                       // item /Parent = item
+	OutlineRootFirstRoot                    // outline root /First = outline root
+	OutlineCountLie                         // /Count absurd
+	NameTreeKidsSelf                        // name tree node lists itself in /Kids
+	NameTreeKidsRoot                        // a name tree leaf gets /Kids [root]
+	NameTreeLimitsLie                       // /Limits do not match
+	FieldKidsCycle                          // AcroForm field /Kids contains the field itself
+	FieldParentCycle                        // field /Parent = field
+	FormXObjectSelf                         // form XObject's resources refer to the form itself and its content paints it
+	ResourcesSelf                           // /Resources entry refers to the page object
+	DeepArrayInCatalog                      // catalog key holding an array nested depth levels
+	DeepDictInCatalog                       // same with dictionaries
+	DeepArrayInContent                      // a content stream with a deeply nested array operand
+	FilterGarbage                           // /Filter with unknown names / wrong types
+	DecodeParmsGarbage                      // /DecodeParms of wrong type / absurd values
+	ContentsGarbage                         // page /Contents refers to non-streams
+	RootNotCatalog                          // trailer /Root refers to a page
+	InfoSelf                                // trailer /Info refers to the catalog
+	BombContent                             // a page content stream is a decompression bomb
+	BombImage                               // image XObject with huge declared size
+	BombPredictor                           // stream with huge predictor /Columns
+	AnnotsCycle                             // /Annots array refers to itself / the page
+	DestCycle                               // named destination referring to itself through /D
 	numGraphAttacks
 )
 
